@@ -187,7 +187,7 @@ def part(prop, tier, seed, suite=None, profiles=("prel",), diff=False, all_tags=
             kind, ln, first = units.get(a["unit"], ("?", 0, "-"))
             hist = ",".join(alphabet[i] for i in a["path"])
             term = terms[a["term"]] if a["term"] < len(terms) else "drop"
-            what = "does not return (no progress for 6 s: a call spins forever)" if a.get("hang") else f"process aborted (signal {a['sig']}): {a['stderr'].strip().splitlines()[0] if a['stderr'].strip() else ''}"
+            what = "does not return (6 s of CPU time without progress: a call spins forever)" if a.get("hang") else f"process aborted (signal {a['sig']}): {a['stderr'].strip().splitlines()[0] if a['stderr'].strip() else ''}"
             viols.append({"prop": prop, "engine": "E3", "class": "no-return" if a.get("hang") else "abort", "kind": kind, "len": ln, "history": hist, "term": term, "profile": prof, "count": 1,
                           "msg": f"[{prof}] kind={kind} len={ln} history={hist} then {term}: {what}",
                           "replay_cmd": f"{binary} replay --suite {suite} --kind {kind} --len {ln} --history '{hist}' --term {term}"})
